@@ -22,7 +22,7 @@ Failed(r) ==
      \o t(P02(def, EffArgv(def, r.argv), o, mobs), "C02")
      \o t(P03(def, o), "C03")
      \o t(P05(def, EffArgv(def, r.argv), o, top) /\ P05Err(def, o, top) /\ P05Keep(def, EffArgv(def, r.argv), o, top), "C05")
-     \o t(P06(def, o, mobs), "C06")
+     \o t(P06(def, o, mobs) /\ P06Supplied(def, o, top), "C06")
      \o t(P07(def, o, top), "C07")
      \o t(P09(def, o, top, mobs), "C09")
      \o (IF P10(def, o, top, mobs, r.sugg) THEN <<>>
